@@ -169,7 +169,8 @@ class PlanRun:
         if pre:
             t.add_pretasks(*pre)
         for tk in spec.get("tokens", []):
-            t.add_dependencies(self.tokens[tk["tok"]].dependency(tk["n"]))
+            if tk.get("via") != "listener":  # (listener: the launcher's submit listener puts the job under the token)
+                t.add_dependencies(self.tokens[tk["tok"]].dependency(tk["n"]))
         if explicit:
             t.add_dependencies(*explicit)
         return t, init
@@ -230,6 +231,10 @@ class PlanRun:
         if getattr(self, "generate", False):
             rec["generated_only"] = True  # never reaches the scheduler: not a job of this run for the monitors
             return
+        for tk in spec.get("tokens", []):
+            if tk.get("via") == "listener":
+                # documented use of Launcher.onSubmit: "this allows the launcher to add token dependencies"
+                job.dependencies.add(self.tokens[tk["tok"]].dependency(tk["n"]))
         live = [p for p in eng.procs.values() if p.jobkey == key and not p.exited]
         job._xv_key = key
         job._xv_run = self.xp
